@@ -161,6 +161,9 @@ func hasConflictMatchToken(me *MatchToken, next []any) bool {
 				return true
 			}
 		case token.Token:
+			if n == me.Tok {
+				return true // the token class also matches this literal
+			}
 		default:
 			panic("unreachable")
 		}
